@@ -471,6 +471,37 @@ impl GtState {
     }
 }
 
+/// Verification hooks (runtime monitors in `/verif`): public forwarding wrappers only.
+#[cfg(gmsol_verif)]
+impl GtState {
+    /// Public wrapper of `init`.
+    pub fn verif_init(
+        &mut self,
+        decimals: u8,
+        initial_minting_cost: u128,
+        grow_factor: u128,
+        grow_step: u64,
+        ranks: &[u64],
+    ) -> Result<()> {
+        self.init(decimals, initial_minting_cost, grow_factor, grow_step, ranks)
+    }
+
+    /// Public wrapper of `set_order_fee_discount_factors`.
+    pub fn verif_set_order_fee_discount_factors(&mut self, factors: &[u128]) -> Result<()> {
+        self.set_order_fee_discount_factors(factors)
+    }
+
+    /// Public wrapper of `order_fee_discount_factor`.
+    pub fn verif_order_fee_discount_factor(&self, rank: u8) -> Result<u128> {
+        self.order_fee_discount_factor(rank)
+    }
+
+    /// Public wrapper of `get_mint_amount`.
+    pub fn verif_get_mint_amount(&self, size_in_value: u128) -> Result<(u64, u128, u128)> {
+        self.get_mint_amount(size_in_value)
+    }
+}
+
 gmsol_utils::flags!(GtExchangeVaultFlag, MAX_GT_EXCHANGE_VAULT_FLAGS, u8);
 
 /// GT Exchange Vault.
